@@ -6,6 +6,7 @@ package main
 
 import (
 	"fmt"
+	"go/constant"
 	"go/token"
 	"go/types"
 	"strings"
@@ -248,10 +249,12 @@ func (u *Unit) registerModels() {
 			fx.labelCopy(c.V, c.C.Args[0])
 			return VStr{app(SSeq, "trim", c.Args[0].(VStr).T)}
 		})
-	u.reg("strings.ToUpper", "returns upper(s) (uninterpreted)", nil,
+	u.reg("strings.ToUpper", "returns upper(s) (uninterpreted); every ASCII byte of the result stems from a distinct rune of s, so len(s) >= apl(upper(s)), the length of the longest all-ASCII prefix of the result", nil,
 		func(fx *FX, st *State, c *CallCtx) Val {
-			fx.labelCopy(c.V, c.C.Args[0])
-			return VStr{app(SSeq, "upper", c.Args[0].(VStr).T)}
+			s := c.Args[0].(VStr).T
+			r := app(SSeq, "upper", s)
+			fx.assume(tTrue, ge(app(SInt, "len", s), app(SInt, "apl", r)))
+			return VStr{r}
 		})
 	u.reg("strings.ToLower", "returns lower(s) (uninterpreted)", nil,
 		func(fx *FX, st *State, c *CallCtx) Val {
@@ -265,10 +268,24 @@ func (u *Unit) registerModels() {
 			fx.labelCopy(c.V, c.C.Args[0])
 			return VStr{app(SSeq, "rep", c.Args[0].(VStr).T, n)}
 		})
-	u.reg("strings.HasPrefix", "returns hasprefix(s, p): len(s) >= len(p) and s[0:len(p)] == p", nil,
+	u.reg("strings.HasPrefix", "returns hasprefix(s, p): len(s) >= len(p) and s[0:len(p)] == p; for a constant ASCII p, hasprefix(s,p) implies apl(s) >= len(p)", nil,
 		func(fx *FX, st *State, c *CallCtx) Val {
 			fx.compareCheck(st, c.V, c.C.Args[0], c.C.Args[1])
-			return VBool{app(SBool, "hasprefix", c.Args[0].(VStr).T, c.Args[1].(VStr).T)}
+			s, p := c.Args[0].(VStr).T, c.Args[1].(VStr).T
+			r := fx.def("hasprefix", app(SBool, "hasprefix", s, p))
+			if k, ok := c.C.Args[1].(*ssa.Const); ok && k.Value != nil {
+				lit := constant.StringVal(k.Value)
+				ascii := true
+				for i := 0; i < len(lit); i++ {
+					if lit[i] >= 128 {
+						ascii = false
+					}
+				}
+				if ascii {
+					fx.assume(tTrue, implies(r, ge(app(SInt, "apl", s), num(int64(len(lit))))))
+				}
+			}
+			return VBool{r}
 		})
 	u.reg("strings.TrimPrefix", "returns s without the prefix p if present, else s", nil,
 		func(fx *FX, st *State, c *CallCtx) Val {
